@@ -165,3 +165,26 @@ _ADDED6 = {
 }
 for _pid, _t in _ADDED6.items():
     CLAIMS[_pid]["text"] += " Round 6: " + _t
+
+_ADDED7 = {
+    "C01": "accumulators initialised before a loop are not overwritten in it (R-LOOPACC); Ok() of a generated virtual view tests presence first (R-VIRTOK); templates that hard-code Ok() are not used for fields with [requires] (R-CONSTPRESENT).",
+    "C03": "the inverse transform takes operands from the walking cursor (R-INVERSE); integer virtual fields have write overloads that test representability before narrowing (R-VIRTNARROW); array views get from every storage class what they use (R-ARRAYSTORAGE).",
+    "C04": "moduli are combined by gcd, never by order (R-MODCOMBINE); the alignment DCHECK is made on the kept byte pointer (R-ALIGNCHECK); array elements are neither zero-sized nor 2**64 bits or more (R-ELEMSIZE).",
+    "C05": "R-MODCOMBINE; a constant that is not a literal is read only after its bounds were computed (R-CONSTAGREE).",
+    "C06": "whitespace skipped by the reader equals what ends a token (R-WSAGREE); a digit has been consumed before DecodeInteger succeeds (R-DIGITSEEN); aliases of anonymous bits members inherit the members' dependencies (R-ALIASDEPS, repaired); write/text methods of virtual views are const (R-CONSTWRITE).",
+    "C07": "element views over OffsetStorageType<element_size, 0> (R-ELEMSTORAGE); enumerators unique after case conversion (R-ENUMUNIQUE); header names unescaped and unwritable ones diagnosed (R-INCLUDENAME); R-ARRAYSTORAGE, R-CONSTWRITE, R-SUBBYTE; class-level template parameters vs. type names (R-SPELL, known finding `Storage`).",
+    "C09": "no mutable default argument escapes in the parser generator (R-MUTDEFAULT).",
+    "C10": "the indentation prefix consists of exactly the characters the gap pattern skips (R-INDENT charset clause); lines are cut at newlines only, by tokenizer and printer alike (R-LINESPLIT).",
+    "C11": "strips that measure comments are argument-less (R-FMTWIDTH).",
+    "C12": "every lookup receives the caller's whole scope chain (R-SCOPECHAIN lookup clause).",
+    "C13": "the operator table's argument check covers every argument (R-OPSIG).",
+    "C14": "bits types fixed-size and <= 64 bits for named, inline and anonymous alike (R-BITSFIXED); documented reserved words equal the loaded ones (R-DOCWORDS); sub-byte scalars rejected in run-time sized struct fields (R-SUBBYTE); Null byte order judged by the field size for non-array fields (R-NULLORDER, specification corrected); R-BOUNDORDER.",
+    "C15": "graph-building actions accumulate their edges (R-EDGEACC).",
+    "C16": "leaf-only checks run as traversal actions (R-LEAFCHECK); the shared error list is not consulted per node and candidate notes skip synthetic locations (R-SHAREDERR); only diagnosable-free attributes are copied to synthetic aliases (R-ALIASATTR); located-at-found-object messages have a fallback (R-FOUNDLOC); exponents are bounded (R-POWCAP); CPython's digit limit lifted (R-INTDIGITS); bounds memoised per pass (R-BOUNDMEMO); constant references resolve to constants (R-CONSTREFKIND); R-BOUNDORDER.",
+    "C17": "successors of the cycle search and reported cycle members are ordered independently of hash seed and of the anonymous-name counter (R-TARJAN order clause, R-NATSORT); module-level skeletons are only marked before being copied (R-SKELMUT); R-MUTDEFAULT.",
+    "C18": "the hand-off file depends on --output-file alone (R-DRIVERFLAGS hand-off clause).",
+    "C19": "8-bit enums are promoted before streaming (R-CHARSTREAM); R-ENUMUNIQUE; the $default table the back end gathers is not mutated in place (R-INCIDENTAL-PURE).",
+    "C20": "bit-block copies keep the destination's other bits (R-BITCOPY); converting operator= copies parameters (R-PARAMCOPY).",
+}
+for _pid, _t in _ADDED7.items():
+    CLAIMS[_pid]["text"] += " Round 7 and third hunt: " + _t
